@@ -469,6 +469,9 @@ pub struct ProcModel {
     /// properties over the multiset of pcs: (expectation, pc value, threshold, shared value or 255)
     pub props: Arc<Vec<(Expectation, u8, usize, u8)>>,
     pub bound_pc: u8,
+    /// Initial program counters. Not always sorted: the initial state need not be its own
+    /// representative (symmetry of the transitions and properties is all the statement asks).
+    pub init_pcs: Vec<u8>,
 }
 
 #[derive(Clone, Debug, PartialEq, Eq, Hash, PartialOrd, Ord)]
@@ -499,7 +502,7 @@ impl Model for ProcModel {
     type State = PState;
     type Action = (u8, u8); // (process, alternative)
     fn init_states(&self) -> Vec<PState> {
-        vec![PState { pcs: vec![0; self.n], shared: 0 }]
+        vec![PState { pcs: self.init_pcs.clone(), shared: 0 }]
     }
     fn actions(&self, s: &PState, actions: &mut Vec<(u8, u8)>) {
         for (i, pc) in s.pcs.iter().enumerate() {
@@ -554,7 +557,18 @@ fn gen_proc_model(rng: &mut Rng) -> ProcModel {
     }
     // keep-alive: never violated (more than n processes at a pc is impossible)
     props.push((Expectation::Always, 0, n, 255));
-    ProcModel { n, pcs, shared_vals, program: Arc::new(program), props: Arc::new(props), bound_pc: if rng.pct(30) { rng.below(pcs as usize) as u8 } else { 250 } }
+    let bound_pc = if rng.pct(30) { rng.below(pcs as usize) as u8 } else { 250 };
+    // every other model starts from a mixed (often unsorted) vector of program counters
+    let mut init_pcs = vec![0u8; n];
+    if rng.pct(50) {
+        for pc in init_pcs.iter_mut() {
+            let v = rng.below(pcs as usize) as u8;
+            if v != bound_pc {
+                *pc = v;
+            }
+        }
+    }
+    ProcModel { n, pcs, shared_vals, program: Arc::new(program), props: Arc::new(props), bound_pc, init_pcs }
 }
 
 fn reach_proc(m: &ProcModel) -> BTreeSet<PState> {
